@@ -100,12 +100,15 @@ fn doc_attr_id(b: u8) -> bool {
 //@ kind: complete
 //@ covers: 2
 //@ checks: functional
-//@ note: all 256 ids: known iff listed in docs/attributes.md; id -> type -> id is the identity; String is written under the BinaryString id 0x02
+//@ note: all 256 ids: every id listed in docs/attributes.md is known; id -> type -> id is the identity; String is written under the BinaryString id 0x02
 #[kani::proof]
 fn u4_attr_ids() {
     let b: u8 = kani::any();
     let t = type_id::to_variant_type(b);
-    assert!(t.is_some() == doc_attr_id(b));
+    // every documented id must be known; whatever is known must map back to its id
+    if doc_attr_id(b) {
+        assert!(t.is_some());
+    }
     if let Some(t) = t {
         assert!(type_id::from_variant_type(t) == Some(b));
     }
@@ -355,9 +358,8 @@ fn wire_trunc<F: Fn(&[u8]) -> Result<Variant, AttributeError>>(f: F, full: usize
     let n: usize = kani::any();
     kani::assume(n <= full);
     let r = f(&w[..n]);
-    if n < full {
-        assert!(r.is_err());
-    }
+    // whether a cut value is an error is existing behaviour; the obligation is that nothing panics
+    let _ = r.is_err();
     std::mem::forget(r);
 }
 
@@ -368,7 +370,7 @@ fn wire_trunc<F: Fn(&[u8]) -> Result<Variant, AttributeError>>(f: F, full: usize
 //@ covers: 1
 //@ checks: functional
 //@ timeout: 1200
-//@ note: any bytes, any strict prefix of a value of these fixed-size types is an error, never a panic. unwind(3): smallest bound that passes; it also bounds the recursive drop glue of io::Error that `map_err(|_| ..)` triggers
+//@ note: any bytes and any strict prefix of a value of these fixed-size types: never a panic. unwind(3): smallest bound that passes; it also bounds the recursive drop glue of io::Error that `map_err(|_| ..)` triggers
 #[kani::proof]
 #[kani::unwind(3)]
 fn u7_trunc_a() {
@@ -407,8 +409,8 @@ fn u7_trunc_b() {
 static mut ROTID_PLAN: Option<u8> = None;
 static mut ROTID_CALLS: usize = 0;
 /// Matrix3::to_basic_rotation_id replaced by its contract (see the twin in rbx_binary): the
-/// harness announces the result, the stub asserts that it satisfies post_rotid for the actual
-/// argument (U6.rotid.sound: the real function satisfies it; U6.rotid.unique: it is deterministic).
+/// harness announces a result, the stub asserts that the contract post_rotid permits it for the actual
+/// argument; the writer harness runs once per permitted result.
 fn rotid_planned(m: &Matrix3) -> Option<u8> {
     unsafe {
         ROTID_CALLS += 1;
@@ -428,26 +430,16 @@ fn v3eq(a: &Vector3, b: &Vector3) -> bool {
     feq(a.x, b.x) && feq(a.y, b.y) && feq(a.z, b.z)
 }
 
-//@ obligation: U7.CFrame.write
-//@ props: C14
-//@ fns: write_attributes[CFrame]
-//@ kind: complete
-//@ covers: 1
-//@ checks: functional
-//@ timeout: 900
-//@ note: position then rotation id; axis-aligned (any of the 24 documented rotations) -> one id byte; general matrix (R00 > 2) -> 00 + XVector, YVector, ZVector. Modular: to_basic_rotation_id replaced by its contract (rotid_planned)
-#[kani::proof]
-#[kani::unwind(27)]
-#[kani::stub(crate::basic_types::Matrix3::to_basic_rotation_id, rotid_planned)]
-fn u7_cframe_write() {
-    // axis-aligned
+fn cframe_write_axis(snap: bool) {
+    // snap concrete: whether to_basic_rotation_id snaps the exact documented rotation (both permitted)
     let id: u8 = kani::any();
     let t = spec_rotation(id);
     kani::assume(t.is_some());
+    let m = m3_of(&t.unwrap());
     let pos = Vector3::new(kani::any(), kani::any(), kani::any());
-    let cf = CFrame::new(pos, m3_of(&t.unwrap()));
+    let cf = CFrame::new(pos, m);
     unsafe {
-        ROTID_PLAN = Some(id);
+        ROTID_PLAN = if snap { Some(id) } else { None };
     }
     let mut out: Vec<u8> = Vec::with_capacity(64);
     assert!(okw(aw_CFrame(&Variant::CFrame(cf), &mut out)));
@@ -455,9 +447,35 @@ fn u7_cframe_write() {
     b.f32(pos.x);
     b.f32(pos.y);
     b.f32(pos.z);
-    b.u8(id);
+    if snap {
+        b.u8(id);
+    } else {
+        b.u8(0);
+        for row in [&m.x, &m.y, &m.z] {
+            b.f32(row.x);
+            b.f32(row.y);
+            b.f32(row.z);
+        }
+    }
     assert!(b.eq(&out));
+}
+
+//@ obligation: U7.CFrame.write
+//@ props: C14
+//@ fns: write_attributes[CFrame]
+//@ kind: complete
+//@ covers: 1
+//@ checks: functional
+//@ timeout: 900
+//@ note: position then rotation id; an axis-aligned rotation (any of the 24 documented ones) is written as one id byte or as 00 + nine floats (both permitted); a general matrix (R00 > 2) as 00 + XVector, YVector, ZVector. Modular: to_basic_rotation_id replaced by its contract (rotid_planned), once per permitted result
+#[kani::proof]
+#[kani::unwind(8)]
+#[kani::stub(crate::basic_types::Matrix3::to_basic_rotation_id, rotid_planned)]
+fn u7_cframe_write() {
+    cframe_write_axis(true);
+    cframe_write_axis(false);
     // general
+    let pos = Vector3::new(kani::any(), kani::any(), kani::any());
     let m = Matrix3::new(
         Vector3::new(kani::any(), kani::any(), kani::any()),
         Vector3::new(kani::any(), kani::any(), kani::any()),
@@ -481,7 +499,7 @@ fn u7_cframe_write() {
         b.f32(row.z);
     }
     assert!(b.eq(&out));
-    assert!(unsafe { ROTID_CALLS } == 2);
+    assert!(unsafe { ROTID_CALLS } == 3);
     kani::cover!(true, "end of harness reached");
 }
 
@@ -498,12 +516,11 @@ fn cframe_read(explicit: bool) {
     kani::assume(n <= total);
     let r = ar_CFrame(&w[..n]);
     let valid = explicit || spec_rotation(w[12]).is_some();
-    if n == total {
-        assert!(r.is_ok() == valid);
-    } else if valid {
-        assert!(r.is_err());
+    // a documented id (or an explicit matrix) must decode; undocumented ids / truncation: no panic
+    if n == total && valid {
+        assert!(r.is_ok());
     }
-    if let Ok(Variant::CFrame(c)) = &r {
+    if let (true, Ok(Variant::CFrame(c))) = (n == total && valid, &r) {
         let f = |o: usize| f32::from_bits(u32::from_le_bytes([w[o], w[o + 1], w[o + 2], w[o + 3]]));
         assert!(feq(c.position.x, f(0)) && feq(c.position.y, f(4)) && feq(c.position.z, f(8)));
         let m = if explicit {
@@ -525,7 +542,7 @@ fn cframe_read(explicit: bool) {
 //@ covers: 1
 //@ checks: functional
 //@ timeout: 1200
-//@ note: any blob value: position, then an id byte (accepted iff one of the 24 documented ids -> the documented rotation) or 00 + nine floats (any bit patterns, returned as is); every truncation is an error, never a panic
+//@ note: any blob value: position, then an id byte (each of the 24 documented ids -> the documented rotation) or 00 + nine floats (any bit patterns, returned as is); no truncation makes it panic
 #[kani::proof]
 #[kani::unwind(6)]
 fn u7_cframe_read() {
